@@ -259,6 +259,23 @@ ODD = [
 ]
 
 
+def lexical_corners():
+    """every literal / comment / operator opening x what follows it (end of file, high and NUL bytes, quotes, newline), bare
+    and inside an otherwise complete program: the places where a lexer indexes a table or reads ahead with an unchecked byte"""
+    heads = ["'", "'\\", "'a", "\"", "\"abc", "\"abc\\", "\"\\", "|", "| c", "#", "#F", "1", "a", "a_", ":", "~", "<", ">", "-", "\\"]
+    tails = ["", "\x80", "\xe9", "\xff", "\x00", "\n", "'", "\"", "\\", "\x7f", "n'", "n\""]
+    out = []
+    for h in heads:
+        for t in tails:
+            out.append("proc main() is 0(" + h + t)
+            out.append("proc main() is 0(" + h + t + ") proc q() is skip")
+            out.append(h + t)
+    return out
+
+
+ODD = ODD + lexical_corners()
+
+
 def tokenize(src):
     """coarse tokens of X source text (keeps strings, comments and unknown bytes as tokens)"""
     return re.findall(r'"(?:\\.|[^"\\])*"?|\'(?:\\.|[^\'\\])?\'?|\|[^\n]*|[A-Za-z][A-Za-z0-9_]*|#?[0-9A-Za-z]+|:=|~=|<=|>=|\s+|.', src, re.S)
